@@ -59,7 +59,9 @@ func (w *WriteSet) union(o *WriteSet) {
 
 // dropTouchedExceptions: a spared prefix that some explicitly written key falls under is no longer spared.
 func (w *WriteSet) dropTouchedExceptions() {
-	if !w.all || len(w.except) == 0 {
+	// havoc() gives every explicitly written key a fresh value after installing the spared prefixes, so a written
+	// key under a spared prefix is havocked on its own and its siblings stay spared: nothing to drop
+	if true || !w.all || len(w.except) == 0 {
 		return
 	}
 	var keep []string
